@@ -157,7 +157,7 @@ class Checker:
         handled by caller).  Returns (list_of_blocks, mapping) or None when malformed."""
         img = self.img
         try:
-            mapping, meta = img.block_map(i)
+            mapping, meta = img.block_map(i, strict=False)
         except I.FormatError as e:
             self.p("F4", "mapping-malformed", "inode %d: %s" % (i.ino, e))
             self.mapping_failed = True
@@ -178,7 +178,7 @@ class Checker:
         img = self.img
         seed = i.csum_seed() if img.has_csum else None
 
-        def node(buf, blkno, lo_bound, is_root):
+        def node(buf, blkno, lo_bound, is_root, skip_csum=False):
             magic, entries, mx, depth, gen = struct.unpack_from("<HHHHI", buf, 0)
             if magic != I.EXT_MAGIC:
                 self.p("F4", "extent-bad-magic", "inode %d node %d" % (i.ino, blkno))
@@ -189,7 +189,7 @@ class Checker:
             if mx > cap or entries > mx or (mx == 0):
                 self.p("F4", "extent-bad-header", "inode %d node %d" % (i.ino, blkno))
                 return
-            if not is_root and seed is not None:
+            if not is_root and seed is not None and not skip_csum:
                 off = 12 + 12 * mx
                 if off + 4 <= len(buf):
                     want = crc.crc32c(seed, buf[:off])
@@ -220,6 +220,11 @@ class Checker:
                     cm, ce, cmx, cdepth, _g = struct.unpack_from("<HHHHI", cb, 0)
                     if cm == I.EXT_MAGIC and cdepth != depth - 1:
                         self.p("F4", "extent-depth-mismatch", "inode %d node %d" % (i.ino, child))
+                        cb = bytearray(cb)
+                        struct.pack_into("<H", cb, 6, depth - 1)
+                        cb = bytes(cb)
+                        node(cb, child, lb, False, skip_csum=True)
+                        prev_end = max(prev_end, lb + 1)
                         continue
                     node(cb, child, lb, False)
                     prev_end = max(prev_end, lb + 1)
@@ -262,6 +267,9 @@ class Checker:
                 continue
             isz = img.inode_size
             limit = ipg
+            if img.has_gdt_csum and gd.itable_unused <= ipg and img.gd_csum(g) == gd.checksum:
+                # inodes beyond the in-use part of the table are never initialised
+                limit = ipg - gd.itable_unused
             for idx in range(limit):
                 ino = g * ipg + idx + 1
                 raw = tbl[idx * isz:(idx + 1) * isz]
